@@ -129,6 +129,10 @@ theorem C16_init_hap (ns : List Nat) (h : ns ≠ []) :
       some (cl ns.dropLast, c) :=
   plist_init_reduce_hap ns h
 
+/-- the one point `C16_init_hap` leaves out: `init` of the EMPTY list under HAP (a ground fact, checked by the kernel) -/
+theorem C16_init_nil_hap : ∃ fuel c, reduce .HAP 0 fuel (app Gen.PList.init (cl [])) = some (cl [], c) :=
+  ⟨100, 10, by decide +kernel⟩
+
 theorem C16_map_succ_hap (ns : List Nat) :
     ∃ fuel c, reduce .HAP 0 fuel (app2 Gen.PList.map Gen.Church.succ (cl ns)) = some (cl (ns.map (· + 1)), c) :=
   plist_map_succ_reduce_hap ns
